@@ -81,7 +81,9 @@ def c06(rng, qk):
     for _ in range(rng.randint(12, 40)):
         r = rng.random()
         if r < 0.40 and s.alive:
-            s.log(rng.choice(sorted(s.alive)), rng.choice(s.loggers), pad=min(qsys.pads(rng, cap, bounded), _maxpad(cap, mx, bounded)))
+            # one statement in eight is an immediate-flush call (QUILL_IMMEDIATE_FLUSH): the log call itself flushes
+            s.log(rng.choice(sorted(s.alive)), rng.choice(s.loggers), pad=min(qsys.pads(rng, cap, bounded), _maxpad(cap, mx, bounded)),
+                  kind="imm" if rng.random() < 0.125 else "direct")
         elif r < 0.54 and s.alive:
             s.op(f"T {rng.choice(sorted(s.alive))} flush {rng.choice(s.loggers)}")
         elif r < 0.60 and len(s.threads) < 5:
